@@ -151,7 +151,13 @@ fn run_case(case: &J) -> J {
     let d2 = dir.clone();
     let extra = case["extra_files"].clone();
     let verbose = case["verbose"].as_bool().unwrap_or(false);
-    let built = guarded(move || build(&d2, &src, &extra, verbose));
+    let built = if let Some(text) = case["blueprint_json"].as_str() {
+        // a blueprint given as text (e.g. one written for another Plutus version), not built from sources
+        let t = text.to_string();
+        guarded(move || serde_json::from_str::<Blueprint>(&t).map_err(|e| format!("load: {e}")))
+    } else {
+        guarded(move || build(&d2, &src, &extra, verbose))
+    };
     let bp = match built {
         Err(p) => return json!({"id": id, "build": {"panic": p}}),
         Ok(Err(e)) => return json!({"id": id, "build": {"err": e}}),
